@@ -116,6 +116,13 @@ pub fn payload_len(p: &PayloadContent, e: Endianness) -> usize {
         PayloadContent::NetworkTrace(slices) => slices.iter().map(|s| 4 + 2 + s.len()).sum(),
     }
 }
+/// Message::as_bytes for the drivers' own generating steps: a panic of the writer on a generated message must not take the driver down
+/// (it is data for the properties about the writer, and no input at all for the others).  A serialised message is never empty, so an
+/// empty result is the failure mark: writer-related modes record it (their relation then fails), the other modes skip the sample.
+pub fn ser(m: &Message) -> Vec<u8> {
+    let m2 = m.clone();
+    std::panic::catch_unwind(move || m2.as_bytes()).unwrap_or_default()
+}
 pub struct MsgOpts {
     pub storage: Option<bool>, // force presence / absence
     pub big: usize,            // size of the occasional large string / raw field
